@@ -346,7 +346,7 @@ func (g *consGen) gen() hmsg {
 			// only prevotes of the current round from a validator that has not voted, and never a third one: the node
 			// must not be pushed over a 2/3 threshold by this harness-made "valid input" (keeps the fixture simple)
 			pv := rs.Votes.Prevotes(rs.Round)
-			if pv == nil || pv.BitArray().GetIndex(vi) || vi == e.nodeVal || countTrue(pv.BitArray().String())+2 > e.quorum() {
+			if e.waitSync || pv == nil || pv.BitArray().GetIndex(vi) || vi == e.nodeVal || countTrue(pv.BitArray().String())+2 > e.quorum() {
 				kind, m.kind = "Vote", "Vote"
 			} else {
 				v := e.signedVote(vi, tmproto.PrevoteType, rs.Round, bid, true)
@@ -481,7 +481,10 @@ func TestHostileConsensus(t *testing.T) {
 		// chain length 0 = a fresh chain: the node sits at the chain's FIRST height (no last commit, no stored block)
 		nBlocks := rapid.SampledFrom([]int{0, 0, 1, 2, 3}).Draw(t, "blocks")
 		initialHeight := rapid.SampledFrom([]int64{1, 1, 1, 7, 1000}).Draw(t, "initialheight")
-		e := newConsEnv(t, nVals, nBlocks, nodeVal, initialHeight)
+		// waitSync: the node is still block/state syncing — the consensus reactor is registered and running (tracks
+		// peers, answers on the state channel), the state machine has not been started
+		waitSync := rapid.IntRange(0, 7).Draw(t, "waitsync") == 0
+		e := newConsEnvOpt(t, nVals, nBlocks, nodeVal, initialHeight, waitSync)
 		defer func() {
 			e.closeChecked()
 			if !wedged() {
@@ -489,7 +492,11 @@ func TestHostileConsensus(t *testing.T) {
 			}
 		}()
 		state := rapid.SampledFrom(nodeStates).Draw(t, "nodestate")
-		e.drive(state)
+		if waitSync {
+			state = "wait-sync"
+		} else {
+			e.drive(state)
+		}
 
 		p := newPeer(rapid.Bool().Draw(t, "outbound"))
 		var ps *consensus.PeerState
